@@ -5,7 +5,7 @@ import os, shutil, subprocess, sys, tempfile
 from pathlib import Path
 V = Path(__file__).resolve().parent.parent
 d = Path(tempfile.mkdtemp(prefix="cov-", dir="/tmp"))
-checks = sys.argv[1:] or [f"C{i:02d}" for i in range(1, 21)]
+checks = sys.argv[1:] or [f"C{i:02d}" for i in range(1, 20)]      # C20 measures work under a timer: not under coverage
 env = dict(os.environ, VERIF_COVERAGE=str(d))
 for c in checks:
     p = subprocess.run([str(V / "check"), c], cwd=V, env=env, capture_output=True, text=True)
